@@ -233,7 +233,7 @@ func TestFindings(t *testing.T) {
 }
 
 func TestRandom(t *testing.T) {
-	chkReq.Rapid(t, harness.Pick(20000, 100000))
+	chkReq.Rapid(t, harness.Pick(20000, 1000000))
 }
 
 func TestQuantityAxes(t *testing.T) {
